@@ -32,6 +32,11 @@ type c13Struct struct {
 	Num   int
 }
 
+// c13Outer holds a struct in a field: paths of two steps by JSON tag
+type c13Outer struct {
+	In c13Struct `json:"in"`
+}
+
 func c13Env() map[string]any {
 	return map[string]any{
 		"n": 5, "k": 2, "f": 1.5, "s": "str", "e": "", "t": true, "b": false, "ns": "42",
@@ -41,6 +46,7 @@ func c13Env() map[string]any {
 		"m":  map[string]any{"k": "mk", "l": []any{"x", "y"}, "n": 7},
 		"l":  []int{10, 20},
 		"st": c13Struct{Field: "SF", Num: 3},
+		"sp": &c13Struct{Field: "PF", Num: 4}, "sl": []c13Struct{{Field: "LF", Num: 6}}, "so": c13Outer{In: c13Struct{Field: "OF", Num: 8}},
 	}
 }
 
@@ -105,6 +111,12 @@ func c13Leaves() []c13E {
 		{"m.l[1]", c13V{T: "string", S: "y"}, "path:dotted-index", true},
 		{"st.Field", c13V{T: "string", S: "SF"}, "path:struct-field", true},
 		{"st.Num", c13V{T: "int", I: 3}, "path:struct-field", true},
+		// fields by their JSON tag: through a struct, a pointer, a slice element, a struct in a struct
+		{"st.tag", c13V{T: "string", S: "SF"}, "path:struct-json-tag", true},
+		{"sp.tag", c13V{T: "string", S: "PF"}, "path:struct-json-tag", true},
+		{"sl[0].tag", c13V{T: "string", S: "LF"}, "path:struct-json-tag", true},
+		{"so.in.tag", c13V{T: "string", S: "OF"}, "path:struct-json-tag", true},
+		{"so.In.Num", c13V{T: "int", I: 8}, "path:struct-field", true},
 		{"zz", c13V{T: "nil"}, "path:undefined", true},
 		{"5", c13V{T: "int", I: 5}, "literal:int", true},
 		{"0", c13V{T: "int", I: 0}, "literal:int", true},
@@ -878,6 +890,8 @@ func init() {
 			// a registered function called inside an operator expression
 			for _, e := range []struct{ expr, want string }{
 				{"double(n) + 1", "int:11"}, {"double(n) > 5", "bool:true"}, {"shout(s) == 'STR!'", "bool:true"}, {"isbig(n) && t", "bool:true"}, {"isbig(n) ? 'big' : 'small'", "string:big"}, {"len(s) + 1", "int:4"},
+				{"!isbig(n)", "bool:false"}, {"!isbig(k)", "bool:true"}, {"isbig(k) || isbig(n)", "bool:true"}, {"double(addn(n, 3)) + 1", "int:17"}, {"double(n) + double(k)", "int:14"}, {"n + double(k) * 2", "int:13"},
+				{"'nosuch(1)' + s", "string:nosuch(1)str"}, {"(n) + 1", "int:6"}, {"not (n > k)", "bool:false"},
 			} {
 				emit(&c13Case{Part: "expr", Expr: e.expr, Shape: "registered-function-in-operator-expression", Want: e.want})
 			}
@@ -904,6 +918,10 @@ func init() {
 				// a number that does not fit the parameter type cannot be converted either
 				{"big | small", "impossible-conversion", "small"}, {`"300" | small`, "impossible-conversion", "small"}, {"small(big)", "impossible-conversion-call", "small"},
 				{"minus | natural", "impossible-conversion", "natural"}, {`"-1" | natural`, "impossible-conversion", "natural"},
+				// the same failures with the call inside an operator expression
+				{"fail(s) + 'x'", "function-error-in-operator-expression", "fail"}, {"!fail(s)", "function-error-in-operator-expression", "fail"}, {"t && fail(s)", "function-error-in-operator-expression", "fail"},
+				{"double(s) > 1", "impossible-conversion-in-operator-expression", "double"}, {"addn(n) + 1", "wrong-arity-in-operator-expression", "addn"},
+				{"nosuch(n) + 1", "unknown-function-in-operator-expression", "nosuch"}, {"t && nosuch(n)", "unknown-function-in-operator-expression", "nosuch"}, {"double(nosuch(n)) + 1", "unknown-function-in-operator-expression", "nosuch"},
 			} {
 				emit(&c13Case{Part: "error", Expr: e.expr, Shape: e.shape, Fn: e.fn})
 			}
